@@ -312,7 +312,7 @@ def make_app(spec, log, body_hook=None):
                 return build_out(log, eh[1], app)
             if eh[0] == 'mut':
                 # application code annotates the error object it is handed, then answers
-                err.headers['X-Debug'] = app.request.path
+                err.headers['X-Debug'] = ascii(app.request.path)   # ascii(): a path with CR/LF/NUL must not trip the header guard
                 return build_out(log, eh[1], app)
             if eh[0] == 'bd':
                 return err.body
